@@ -419,10 +419,12 @@ def _send(comm, obj, dest, dtype):
     from .field import Field
     from .multi_field import MultiField
 
+    if dtype is np.ndarray:
+        # sums of zero-dimensional arrays are numpy scalars
+        shp_orig = np.shape(obj)
+        obj = np.ascontiguousarray(obj).reshape(shp_orig)
     assert isinstance(obj, dtype)
     if dtype is np.ndarray:
-        shp_orig = obj.shape
-        obj = np.ascontiguousarray(obj).reshape(shp_orig)
         comm.send((obj.shape, obj.dtype), dest=dest)
         comm.Send(obj, dest=dest)
         return
